@@ -714,7 +714,9 @@ impl<W: Write + io::Seek> ZipWriter<W> {
             .last_modified_time(file.last_modified())
             .compression_method(file.compression());
         if let Some(perms) = file.unix_mode() {
-            options = options.unix_permissions(perms);
+            // Keep the file-type bits too: masked to 0o777, a source mode of 0o100000
+            // (no permission bits) became external attributes 0, i.e. "no mode at all".
+            options.permissions = Some(perms);
         }
 
         let raw_values = ZipRawValues {
